@@ -110,6 +110,17 @@ def check(cx):
         r2.violation('process_kick|no-announcement', 'the kick is not announced to the remaining members', loc=fk)
     if not to_vic:
         r2.violation('process_kick|victim-not-told', 'the victim is not told about the kick', loc=fk)
+    # the victim is told unconditionally: its line must not hang on a look-up of the channel made after the removals (a kick that
+    # removes the last members deletes the channel)
+    body_k = prog.bodies[fk + '::{closure#0}']['body'] if (fk + '::{closure#0}') in prog.bodies else prog.bodies[fk]['body']
+    first_rm = min([x.seq for x in removes] or [0])
+    late_q = [q for q in w.events if q.kind == 'query' and q.data['coll'] == CHANNELS and q.seq > first_rm and removes]
+    for e, s in to_vic:
+        r2.instance('victim line does not depend on the channel surviving the removals')
+        if any(conditioned_on(prog, body_k, e.node, q.node) for q in late_q):
+            r2.violation('process_kick|victim-line-needs-surviving-channel', 'the KICK line to the victim is sent only if the channel still '
+                         'exists after the removals: when the kick empties the channel nobody is told, although the victims lost their '
+                         'membership', loc=cx.loc(e.node))
     for e, s in others:
         r2.violation('process_kick|foreign-audience', 'KICK line is sent to %s' % show_term(s['to']), loc=cx.loc(e.node))
     for e, s in to_rest + to_vic:
@@ -305,6 +316,14 @@ def rule_kick_relative(cx, rule):
             for a in atoms(f):
                 if a == ('is', ('get', MEMBERS, ('elem', ('keys', MEMBERS))), 'Some') or a == ('is', ('get', USERS, ('elem', ('keys', MEMBERS))), 'Some'):
                     f = subst(f, a, True)
+            if what == 'the victim':
+                prog = cx.prog
+                body_k = prog.bodies[fk + '::{closure#0}']['body'] if (fk + '::{closure#0}') in prog.bodies else prog.bodies[fk]['body']
+                first_rm = min(x.seq for x in removes)
+                if any(conditioned_on(prog, body_k, e.node, q.node) for q in w.events
+                       if q.kind == 'query' and q.data['coll'] == CHANNELS and q.seq > first_rm):
+                    rule.violation('process_kick|victim-line-needs-surviving-channel', 'the KICK line to the victim is sent only if the channel '
+                                   'still exists after the removals', loc=cx.loc(e.node))
             ok, m = equivalent(f, removed)
             if not ok:
                 rule.violation('process_kick|relative|announcement|%s' % what.split()[-1], 'the KICK line to %s and the removal do not happen under '
